@@ -172,6 +172,15 @@ impl ExternalFunction for ExtPeer {
                 let s = format!("X{tok}");
                 (Some(ValueType::new::<&str>(&s)), format!("s:{s}"))
             }
+            3 => {
+                // order-sensitive: p0 + 10*p1 + 100*p2 + 7 (the generator's Ink fallbacks compute the same)
+                let mut v: i32 = 7;
+                for (k, a) in args.iter().enumerate() {
+                    let x = a.coerce_to_int().unwrap_or(0);
+                    v = v.wrapping_add(x.wrapping_mul(10i32.wrapping_pow(k as u32)));
+                }
+                (Some(ValueType::Int(v)), format!("i:{v}"))
+            }
             _ => (None, "void".to_string()),
         };
         self.log.borrow_mut().push(Ev::External {
